@@ -3,7 +3,7 @@
 (* invoked by, then XZ_DEFAULTS, then XZ_OPT, then the command line - all    *)
 (* parsed by the same parse_real() into the same global variables - and the  *)
 (* adjustments of args_parse() afterwards.  Only the options that the C19    *)
-(* models consume are covered: -z -d -k -f -c -q -Q -S SUF -F FMT.           *)
+(* models consume are covered: -z -d -k -f -c -q -Q -S SUF -F FMT --no-sparse*)
 (* A token is a record [o |-> "z"|"d"|"k"|"f"|"c"|"q"|"Q"] or                *)
 (* [o |-> "S", v |-> suffix] or [o |-> "F", v |-> "auto"|"xz"|"lzma"|"raw"]. *)
 EXTENDS Suffix
@@ -14,7 +14,7 @@ Progs == {"xz", "unxz", "xzcat", "lzma", "unlzma", "lzcat"}
 (* this order: xzcat, unxz, lzcat, unlzma, lzma                              *)
 ProgInit(prog) ==
     LET base == [mode |-> "compress", keep |-> FALSE, force |-> FALSE, stdout |-> FALSE, fmt |-> "auto",
-                 custom |-> NoCustom, quiet |-> 0, nowarn |-> FALSE, fatal |-> FALSE]
+                 custom |-> NoCustom, quiet |-> 0, nowarn |-> FALSE, nosparse |-> FALSE, fatal |-> FALSE]
     IN  CASE prog = "xzcat"  -> [base EXCEPT !.mode = "decompress", !.stdout = TRUE]
           [] prog = "unxz"   -> [base EXCEPT !.mode = "decompress"]
           [] prog = "lzcat"  -> [base EXCEPT !.fmt = "lzma", !.mode = "decompress", !.stdout = TRUE]
@@ -31,6 +31,7 @@ Apply(st, t) ==
       [] t.o = "c" -> [st EXCEPT !.stdout = TRUE]
       [] t.o = "q" -> [st EXCEPT !.quiet = IF st.quiet < 2 THEN st.quiet + 1 ELSE 2]
       [] t.o = "Q" -> [st EXCEPT !.nowarn = TRUE]
+      [] t.o = "n" -> [st EXCEPT !.nosparse = TRUE]           \* --no-sparse
       [] t.o = "S" -> IF SuffixSet(t.v) = "fatal" THEN [st EXCEPT !.fatal = TRUE]
                       ELSE [st EXCEPT !.custom = t.v]        \* suffix_set(): the old value is replaced by a copy
       [] t.o = "F" -> [st EXCEPT !.fmt = t.v]
@@ -47,6 +48,15 @@ Post(st) ==
 (* environment first (XZ_DEFAULTS, then XZ_OPT), then the command line *)
 Effective(prog, dflt, xzopt, cmd) ==
     Post(ParseReal(ParseReal(ParseReal(ProgInit(prog), dflt), xzopt), cmd))
+
+(* ---- where file names come from (main.c) ---------------------------------*)
+(* "cmd": operands on the command line; "files" / "files0": a list read from a file given with --files=F /  *)
+(* --files0=F (newline / NUL separated); "files_stdin": --files without argument, the list is read from     *)
+(* stdin.  Only an operand on the command line that is exactly "-" means standard input; in a list "-" is   *)
+(* an ordinary file name.  read_name(): empty entries (consecutive delimiters) are ignored.                 *)
+Vias == {"cmd", "files", "files0", "files_stdin"}
+IsStdinName(via, name) == via = "cmd" /\ name = <<"-">>
+ListNames(entries) == SelectSeq(entries, LAMBDA e : e # <<>>)
 
 (* the format as suffix.c sees it *)
 SuffixFmt(eff) == IF eff.fmt = "raw" THEN "raw" ELSE IF eff.mode = "compress" THEN eff.fmt ELSE "auto"
